@@ -15,15 +15,15 @@ import (
 )
 
 func init() {
-	register(&Rule{Name: "ASN1-CERT", Floor: 17, Run: ruleAsn1Cert,
+	register(&Rule{Name: "ASN1-CERT", Floor: 8, Run: ruleAsn1Cert,
 		Doc: "the struct handed to asn1.Marshal where a CERTIFICATE block is written has the field order, universal types, tags, EXPLICIT/OPTIONAL/DEFAULT markers of RFC 5280 4.1 (Certificate, TBSCertificate, Validity, SubjectPublicKeyInfo)"})
-	register(&Rule{Name: "ASN1-EXT", Floor: 12, Run: ruleAsn1Ext,
+	register(&Rule{Name: "ASN1-EXT", Floor: 6, Run: ruleAsn1Ext,
 		Doc: "the structs marshalled by the extension constructors (AuthorityKeyIdentifier, BasicConstraints, PolicyInformation, PolicyQualifierInfo, UserNotice, NoticeReference) have the shapes of RFC 5280 4.2.1; an OPTIONAL INTEGER without pointer whose value comes from a parameter cannot express a configured zero"})
-	register(&Rule{Name: "ASN1-PKCS8", Floor: 9, Run: ruleAsn1Pkcs8,
+	register(&Rule{Name: "ASN1-PKCS8", Floor: 4, Run: ruleAsn1Pkcs8,
 		Doc: "PrivateKeyInfo and ECPrivateKey have the shapes of RFC 5208 / RFC 5915; the EC writer stores version 1 and the reader requires that same constant"})
-	register(&Rule{Name: "ASN1-ADM", Floor: 14, Run: ruleAsn1Adm,
+	register(&Rule{Name: "ASN1-ADM", Floor: 7, Run: ruleAsn1Adm,
 		Doc: "NamingAuthority, and the library-marshalled fields of Admissions and ProfessionInfo, carry the tags and string kinds of Common PKI AdmissionSyntax; the hand-assembled parts use [0] EXPLICIT for the per-admission authority, UTF8 for profession items and universal SEQUENCE wrappers"})
-	register(&Rule{Name: "PARTIAL-COVER", Floor: 2, Run: rulePartialCover,
+	register(&Rule{Name: "PARTIAL-COVER", Floor: 1, Run: rulePartialCover,
 		Doc: "in every hand-written marshal method the constant (offset, length) ranges given to the partial struct marshaller plus the fields marshalled by hand cover every field of the struct exactly once, in declaration order"})
 }
 
@@ -391,13 +391,30 @@ func optionalIntZero(c *Ctx, r *Rep, fn *ssa.Function, ci ssa.CallInstruction, t
 func ruleAsn1Pkcs8(c *Ctx, r *Rep) {
 	// PrivateKeyInfo: the value marshalled by the function that calls x509.MarshalPKCS1PrivateKey
 	n := 0
+	// PrivateKeyInfo: the module struct (version, AlgorithmIdentifier, octets) handed to asn1.Marshal in the function that
+	// wraps a PKCS#1 key - or, when that function was split, anywhere in its package
+	isPKI := func(t types.Type) bool {
+		st, _ := innerStruct(t)
+		if st == nil || st.NumFields() < 3 {
+			return false
+		}
+		return typeIs(st.Field(1).Type(), "crypto/x509/pkix", "AlgorithmIdentifier") && isByteSlice(st.Field(2).Type())
+	}
+	seenPKI := map[string]bool{}
 	for fn := range c.funcsCalling("crypto/x509.MarshalPKCS1PrivateKey") {
-		for _, ci := range callsIn(fn) {
-			if calleeFullName(ci) != "encoding/asn1.Marshal" {
+		for _, f2 := range c.Funcs {
+			if f2.Pkg != fn.Pkg {
 				continue
 			}
-			t := marshalArgType(ci)
-			if st, _ := innerStruct(t); st != nil {
+			for _, ci := range callsIn(f2) {
+				if calleeFullName(ci) != "encoding/asn1.Marshal" {
+					continue
+				}
+				t := marshalArgType(ci)
+				if !isPKI(t) || seenPKI[typeShort(c, t)] {
+					continue
+				}
+				seenPKI[typeShort(c, t)] = true
 				n++
 				compareShape(c, r, t, "PrivateKeyInfo", nil, map[string]bool{})
 			}
